@@ -462,9 +462,32 @@ class EQLTranslator:
         if isinstance(query, Comparator):
             return self.translate_comparator(query)
         if isinstance(query, Attribute):
-            return self.translate_attribute(query)
+            return self.translate_attribute_as_condition(query)
 
         raise UnsupportedQueryTypeError(f"Unknown query type: {type(query)}")
+
+    def translate_attribute_as_condition(self, query: Attribute) -> Any:
+        """
+        Translate an attribute that stands as a condition itself (entity(b, b.name)): it holds where the value is true
+        in Python, which SQL only agrees with for booleans. A text column would be read as a number by the database.
+
+        :param query: The attribute that is used as a condition.
+        :return: The SQL condition that holds for the rows whose value is true in Python.
+        """
+        column = self.translate_attribute(query)
+        try:
+            python_type = column.type.python_type
+        except (AttributeError, NotImplementedError):
+            python_type = None
+        if python_type is bool:
+            return column
+        if python_type in (int, float):
+            return and_(column.is_not(None), column != 0)
+        if python_type is str:
+            return and_(column.is_not(None), column != "")
+        raise UnsupportedQueryTypeError(
+            f"The truth of {query._name_} of type {python_type} cannot be expressed in SQL."
+        )
 
     def translate_and(self, query: AND) -> Optional[Any]:
         """
